@@ -50,6 +50,7 @@ def run(ctx):
     ctx.do(rule_raw_content_stored_only_parsed)
     ctx.do(rule_family_compares_before_it_writes)
     ctx.do(rule_constraint_methods_total)
+    ctx.do(rule_no_position_of_raw_input_without_length_test)
     ctx.do(rule_registry_class_attr)
     ctx.do(rule_input_parsers_guarded)
     ctx.do(rule_recursion_converted)
@@ -1037,3 +1038,60 @@ def rule_family_compares_before_it_writes(ctx, R="C17.commit-last"):
               "add() fails but the refused content is already a member -- all_versions() and query() return it", file=rel,
               line=late[0][0].ast.lineno if late else fi.node.lineno, function=fi.qualname,
               expected="newest = <comparison>; then the writes", found=[short(w.ast, 60) for w, _ in late[:2]])
+
+
+def rule_no_position_of_raw_input_without_length_test(ctx, R="C17.raw-deref"):
+    """Raw input reaches the entry points in any SIZE: the empty string and the empty list are decodable input (a marking
+    definition with "definition": "" hands '' to _get_dict).  `<raw>[0]` / `<raw>[-1]` on a parameter of the pre-clean zone
+    raises IndexError for them (startswith / a slice would not).  In the functions that see raw input before any cleaner, a
+    constant-position subscript of a parameter stands under a test of that parameter's length or truthiness (enclosing `if`, or
+    an earlier operand of the same `and`)."""
+    run = ctx.run
+    prog = ctx.prog
+    zone = ["stix2.utils::_get_dict", "stix2.utils::detect_spec_version", "stix2.parsing::parse", "stix2.parsing::dict_to_stix2",
+            "stix2.parsing::parse_observable", "stix2.utils::get_type_from_id"]
+    n = 0
+    k_ = 0
+    for fid in zone:
+        fi = prog.func(fid)
+        n += 1
+        ps = set(fi.all_param_names())
+        for x in body_walk(fi.node):
+            if not (isinstance(x, ast.Subscript) and isinstance(x.ctx, ast.Load) and isinstance(x.value, ast.Name) and x.value.id in ps):
+                continue
+            idx = x.slice
+            val = idx.value if isinstance(idx, ast.Constant) else (
+                -idx.operand.value if isinstance(idx, ast.UnaryOp) and isinstance(idx.op, ast.USub) and isinstance(idx.operand, ast.Constant) else None)
+            if not isinstance(val, int) or isinstance(val, bool):
+                continue
+            nm = x.value.id
+
+            def sized(t):
+                txt = norm(t)
+                return txt == nm or ("len(%s)" % nm) in txt or txt in ("%s != ''" % nm, "%s != []" % nm)
+            guarded = any(pol and any(sized(c_) for c_ in _and_operands(t)) for t, pol, _ in guard_chain(x))
+            p_ = getattr(x, "parent", None)
+            child = x
+            while not guarded and p_ is not None and not isinstance(p_, ast.stmt):
+                if isinstance(p_, ast.BoolOp) and isinstance(p_.op, ast.And):
+                    i_ = next((i for i, v in enumerate(p_.values) if v is child or any(y is child for y in ast.walk(v))), 0)
+                    guarded = any(sized(v) for v in p_.values[:i_])
+                child, p_ = p_, getattr(p_, "parent", None)
+            if not guarded and _in_try(x, ("IndexError", "LookupError", "Exception")):
+                guarded = True
+            k_ += 1
+            run.check(guarded, R, key(fi.module.relpath, fi.qualname, "position-of-raw-input-under-length-test#%d" % k_),
+                      "IndexError can escape: position %d of the raw input is read without a test that the input is not empty -- an "
+                      "empty string / list is decodable input (e.g. a marking definition with \"definition\": \"\")" % val,
+                      file=fi.module.relpath, line=x.lineno, function=fi.qualname,
+                      expected="%s.startswith(...) / a length test first" % nm, found=short(x.parent if hasattr(x, "parent") else x, 70))
+    run.ok(R, key("stix2", "<pre-clean entry points>", "positions-of-raw-input-examined"), "%d functions" % n)
+
+
+def _and_operands(t):
+    if isinstance(t, ast.BoolOp) and isinstance(t.op, ast.And):
+        for v in t.values:
+            for c in _and_operands(v):
+                yield c
+    else:
+        yield t
